@@ -471,12 +471,12 @@ func c13linearize(h []c13hop, final []c13kv) []int {
 // c13guard runs f under a generous watchdog; a scenario normally takes milliseconds. On a hang
 // the case is emitted with the observation HANG (an oracle failure with that case as replay)
 // and the run ends: the blocked goroutines cannot be recovered.
-func c13guard(env *Env, caseLine func() string, f func()) {
+func c13guard(env *Env, limit time.Duration, caseLine func() string, f func()) {
 	done := make(chan struct{})
 	go func() { defer close(done); f() }()
 	select {
 	case <-done:
-	case <-time.After(60 * time.Second):
+	case <-time.After(limit):
 		env.Emit(caseLine(), "HANG")
 		env.Count("hang")
 		env.out.Flush()
@@ -762,7 +762,7 @@ func runC13(env *Env) {
 				continue
 			}
 			for rep := 0; rep < 40; rep++ {
-				c13guard(env, func() string { return c13caseLine(progs) }, func() {
+				c13guard(env, 20*time.Second, func() string { return c13caseLine(progs) }, func() {
 					h, f := c13runSmall(env, progs, env.Rng)
 					c13emitSmall(env, progs, h, f)
 				})
@@ -778,7 +778,7 @@ func runC13(env *Env) {
 		progs := c13genSmall(env.Rng)
 		var h []c13hop
 		var ok bool
-		c13guard(env, func() string { return c13caseLine(progs) }, func() {
+		c13guard(env, 20*time.Second, func() string { return c13caseLine(progs) }, func() {
 			var f []c13kv
 			h, f = c13runSmall(env, progs, env.Rng)
 			ok = c13emitSmall(env, progs, h, f)
@@ -801,6 +801,6 @@ func runC13(env *Env) {
 	}
 	for _, n := range []int{1, 2, 3, 4, 8, 12, 16} {
 		n := n
-		c13guard(env, func() string { return fmt.Sprintf("C13 big %d %d K 0", n, per) }, func() { c13big(env, n, per, env.Rng) })
+		c13guard(env, 600*time.Second, func() string { return fmt.Sprintf("C13 big %d %d K 0", n, per) }, func() { c13big(env, n, per, env.Rng) })
 	}
 }
